@@ -108,6 +108,15 @@ def b_interleave(ch):
     return st
 
 
+def b_verymany(ch):
+    """beyond the small scope: one composition with 999 ... 2100 volumes, 1000+ surfaces (slab decks of C01)"""
+    from . import c01
+    n = ch.choose('cells', [999, 1000, 1001, 1050, 2000, 2100], free=True)
+    st = c01.b_slabs(c01.DefaultAnswers(), n_override=n)
+    st.features = {}
+    return st
+
+
 OTHERS = [('c01', 'slabs', None), ('c01', 'polygon', None), ('c10', 'two-materials', None), ('c10', 'forms', 3), ('c01', 'p2-mixed-k2', 0), ('c01', 'chain', 2), ('c05', 'trees', 2), ('c06', 'shapes', 2),
           ('c06', 'arrays-2d', 0), ('c07', 'hex', 2), ('c09', 'level0', 2), ('c09', 'like', None),
           ('c13', 'stress', None), ('c15', 'like1', 3), ('c15', 'like2', 2), ('c16', 'flags', 1)]
@@ -127,6 +136,7 @@ def scenarios(tier):
     q = tier == 'quick'
     out = [Scn('interleave', b_interleave, 3 if q else 5, 5,
                'deck choices deviation-bounded x all inlining / dedup configurations (free)')]
+    out.append(Scn('very-many', b_verymany, None, None, 'decks of 999 ... 2100 cells in one composition'))
     for modname, scn, bound in OTHERS:
         b = bound if q else (None if bound is None else bound + 1)
         out.append(Scn('%s:%s' % (modname, scn), (lambda ch, m=modname, s=scn: foreign_build(m, s)(ch)),
